@@ -87,6 +87,9 @@ func findUDP(c *Ctx, rule string) *udpAnchors {
 	searchFns := map[*ssa.Function]bool{}
 	for _, sl := range findSearchLoops(c) {
 		searchFns[sl.fn] = true
+		if sl.inner != nil {
+			searchFns[sl.inner.Parent()] = true // the trial decryption behind a wrapper belongs to the search
+		}
 	}
 	for _, cl := range a.R.Calls() {
 		call, ok := cl.(*ssa.Call)
@@ -449,7 +452,7 @@ func ruleBuffers(c *Ctx, a *udpAnchors, rule string) {
 	for _, u := range a.unpacks {
 		inSearch := false
 		for _, sl := range sls {
-			if sl.unpack == u {
+			if sl.unpack == u || sl.inner == u {
 				inSearch = true
 			}
 		}
